@@ -81,7 +81,8 @@ PROPS = {
         "claim": 'representation-invariant proof for the next_and_back iterator (holds after any history) and verified constructor + wrapper contracts for the std-backed modes; std iterators are trusted by stated contracts; histories on instances are a bounded complement',
         "layers": ["T", "R", "K", "I", "F"],
         "explanation": "next_and_back mode: data-structure proof — iter() establishes view == all variants ascending, next/next_back/size_hint/len are verified to pop the front/back of the abstract view and preserve the representation invariant, so the claim holds after any finite history and fusedness is `len == 0 ==> None, unchanged`. range/table/table_inline modes: the constructor is verified to build the std iterator over exactly the ascending variants (transmute closure precondition, __ENUM well-formedness) and each wrapper method is verified against the same pop-front/pop-back/nth/last/len contract given the assumed contract of the std iterator; fold/rfold are checked structurally to forward verbatim. Defaults of Iterator (collect, count, rev, ...) are std's. Instances are run natively against a VecDeque model over designed + seeded histories (bounded).",
-        "assumptions": ["std's Copied<slice::Iter>, Map<RangeInclusive>, array::IntoIter are correct double-ended exact-size fused iterators over their source (contracts stated in contracts/shims.rs.tmpl)",
+        "assumptions": ["std's Copied<slice::Iter>, Map<RangeInclusive>, array::IntoIter are correct double-ended exact-size fused iterators over their source (contracts stated in contracts/shims.rs.tmpl); "
+                        "the size_hint clause is checked by Kani on the real core types for all 12 integer types in every run, the pop-front/pop-back/nth/nth_back/last/len clauses for small sources (slices <= 4, u8/i8 ranges <= 6 items, arrays of 3) in the thorough tier — bounded, the general statement stays an assumption",
                         "Iterator/DoubleEndedIterator default methods are correct for any conforming next/next_back/size_hint"],
     },
     "C07": {
@@ -94,7 +95,7 @@ PROPS = {
     "C08": {
         "level": "proof",
         "claim": 'Verus proves names() builds the iterator over exactly the name table and the wrapper contracts; alignment with iter()/as_str follows from C03/C06 contracts; table contents per instance (bounded)',
-        "layers": ["T", "I", "F"],
+        "layers": ["T", "K", "I", "F"],
         "explanation": "names() is verified to build the std iterator over exactly the __NAME table (== names(), length == count()), its wrapper methods are verified against pop-front/pop-back/nth/last/len contracts, fold/rfold forward verbatim; as_str (C03) returns names()[rank(v)] and iter() yields the variant of rank i at position i, hence the zip alignment. __NAME contents in discriminant order: per corpus instance (bounded) and layer G.",
         "assumptions": ["as C06"],
     },
